@@ -397,6 +397,57 @@ func connSeq(i int, ndata int) []Action {
 	return append(seq, Action{A: "send", M: &Msg{T: "eof", L: l, R: r}})
 }
 
+// shapeSessions: two connections A and B in every address relationship (same remote /
+// different local, same local / different remote, local and remote swapped, same ip other
+// port, identical pair in another representation), each with: interleaved data, data for
+// an unknown id that shares one address with the connection used last, eof of one while the
+// other goes on, the id announced again after its eof (first as newest, then as oldest
+// connection) and used again, service writes on both.
+func shapeSessions() [][]Action {
+	ip1, ip2, ip3 := hx.B(v4pool[0]), hx.B(v4pool[1]), hx.B(v4pool[2])
+	t := func(ip hx.B, port int) *Addr { return &Addr{Kind: "tcp", IP: ip, Port: port} }
+	type pair struct{ l, r *Addr }
+	shapes := [][2]pair{
+		{{t(ip1, 80), t(ip3, 40000)}, {t(ip1, 22), t(ip3, 40000)}},              // same remote, other local port
+		{{t(ip1, 80), t(ip3, 40000)}, {t(ip2, 80), t(ip3, 40000)}},              // same remote, other local ip
+		{{t(ip1, 80), t(ip3, 40000)}, {t(ip1, 80), t(ip3, 40001)}},              // same local, other remote port
+		{{t(ip1, 80), t(ip3, 40000)}, {t(ip1, 80), t(ip2, 40000)}},              // same local, other remote ip
+		{{t(ip1, 80), t(ip3, 40000)}, {t(ip3, 40000), t(ip1, 80)}},              // swapped
+		{{t(ip1, 80), t(ip3, 40000)}, {t(hx.B(mapped(ip1)), 80), t(ip3, 40000)}}, // same strings, other representation
+		{{t(ip1, 80), t(ip3, 40000)}, {t(hx.B(v6pool[0]), 80), t(hx.B(v6pool[1]), 40000)}},
+	}
+	var out [][]Action
+	for si, sh := range shapes {
+		for order := 0; order < 2; order++ {
+			a, b := sh[0], sh[1]
+			if order == 1 {
+				a, b = b, a
+			}
+			k := 0
+			data := func(p pair) Action {
+				k++
+				return Action{A: "send", M: &Msg{T: "data", L: p.l, R: p.r, P: litPay([]byte(fmt.Sprintf("s%d-%d;", si, k)))}}
+			}
+			hello := func(p pair) Action { return Action{A: "send", M: &Msg{T: "hello", L: p.l, R: p.r}} }
+			eof := func(p pair) Action { return Action{A: "send", M: &Msg{T: "eof", L: p.l, R: p.r}} }
+			unknown := pair{b.l, t(hx.B(v4pool[3]), 50000)} // shares its local address with B
+			unknown2 := pair{t(hx.B(v4pool[3]), 8080), a.r} // shares its remote address with A
+			w := func(c int) Action { k++; return Action{A: "write", C: c, P: litPay([]byte(fmt.Sprintf("w%d-%d;", si, k)))} }
+			acts := []Action{
+				hello(a), hello(b), data(a), data(b), data(unknown2), data(a), data(unknown), data(b), w(0), w(1),
+				{A: "read", C: 0, N: 4096}, {A: "read", C: 1, N: 4096},
+				eof(b), data(b), data(a), // B was the newest: ended; its id is unknown now
+				hello(b), data(b), data(a), w(2), // announced again (connection 2), newest again
+				eof(a), data(a), data(b), // A was the oldest
+				hello(a), data(a), data(b), data(unknown2), w(3), w(2), // announced again (connection 3)
+				eof(unknown), eof(b), data(b), data(a), eof(a),
+			}
+			out = append(out, acts)
+		}
+	}
+	return out
+}
+
 // ---------- main ----------
 
 type Input struct {
@@ -461,6 +512,9 @@ func main() {
 		for _, a := range il {
 			inputs = append(inputs, Input{Sess: a})
 		}
+		for _, a := range shapeSessions() {
+			inputs = append(inputs, Input{Sess: a})
+		}
 		for i := 0; i < nSess; i++ {
 			inputs = append(inputs, Input{Sess: genSession(r, false)})
 		}
@@ -477,11 +531,17 @@ func main() {
 	var e *env
 	var cases []hx.Case
 	id := -1
+	crashes := 0
 	for _, in := range inputs {
 		id++
 		idc := hx.CoqN(uint64(id))
 		switch {
 		case in.Stress > 0:
+			if crashes >= 3 {
+				dist["stress:skipped-after-3-abrupt-failures"]++
+				id--
+				continue
+			}
 			if e == nil {
 				e = startEnv(o.Out)
 			}
@@ -543,7 +603,16 @@ func main() {
 			if e == nil {
 				e = startEnv(o.Out)
 			}
+			if crashes >= 3 {
+				dist["session:skipped-after-3-abrupt-failures"]++
+				id--
+				continue
+			}
 			exec, res, frames, _, crash := e.run(in.Sess)
+			if crash != "" {
+				crashes++
+				degraded = true
+			}
 			kind := "session"
 			if in.Large {
 				kind = "session-large"
